@@ -222,7 +222,9 @@ def consistency(g, label: str = "consistency") -> None:
                 bx_, by_ = 1.33 + 2 * nonaff / Lx, 1.33 + 2 * nonaff / Ly
                 okr = sx > 0 and sy > 0 and 1 / bx_ <= abs(r.x) / sx <= bx_ and 1 / by_ <= abs(r.y) / sy <= by_
                 mon.check(okr, label + ".resolution", lambda: wit({"resolution": [r.x, r.y], "one_pixel_step_maps_to": [sx, sy]}), key="gcp-resolution", cls=fam, sig=sig)
-    if linear:
+    if linear and nx + ny > 300_000:
+        mon.skip(label + ".coordinates", "millions of labels: not materialised here")
+    elif linear:
         # (4) coordinate labels
         cc, ex = call(lambda: g.coordinates)
         off = max(abs(b), abs(d))
@@ -673,6 +675,33 @@ def _chain(mon: Monitor, rng: random.Random, gcp: bool) -> None:
         mon.error("chain", e)
 
 
+def drive_huge(mon: Monitor, rng: random.Random, n: int) -> None:
+    """Rasters with millions of pixels along an axis (a national mosaic, a long swath): every view operation is O(1), so they cost nothing to try - and whatever is
+    tolerant "to 1e-6" inside an operation becomes a whole pixel at this size.  Shape requests whose ratio to the source is within 1e-6 of a whole number or of 1/n without
+    being one are the sharpest probes (4 800 002 -> 2 400 000)."""
+    from odc.geo.geobox import GeoBox
+
+    fixed = [((4_800_002, 3), (2_400_000, 3)), ((3, 3_000_001), (2, 1_500_001)), ((1_100_000, 5), (3_300_001, 5)), ((2_000_003, 2_000_003), (1_000_001, 1_000_002)), ((4_000_000, 7), (1_000_000, 7))]
+    for k in range(n):
+        if k < len(fixed):
+            shp, tgt = fixed[k]
+        else:
+            N = rng.choice([1_000_003, 1_234_567, 2_400_001, 4_800_002, 3_000_001])
+            f = rng.choice([2, 3, 4, 0.5, 1 / 3])
+            shp = (N, rng.randint(1, 9)) if rng.random() < 0.5 else (rng.randint(1, 9), N)
+            tgt = tuple(max(1, int(round(v / f)) + (rng.choice([0, 1, -1]) if v > 100 else 0)) if v > 100 else v for v in shp)
+        r = rng.choice([10.0, 30.0, 0.5, 0.00025])
+        g = GeoBox(shp, Affine(r, 0, rng.uniform(-1e5, 1e5), 0, -r, rng.uniform(-1e5, 1e5)), rng.choice(["EPSG:3857", "EPSG:32633", None]))
+        mon.case = {"kind": "huge", "shape": shp, "target": tgt}
+        call(g.zoom_to, tgt)
+        call(g.zoom_out, rng.choice([2, 3, 2.5]))
+        call(g.__getitem__, (slice(shp[0] // 3, shp[0] - 1), slice(0, shp[1])))
+        call(g.pad, 1)
+        call(g.flipy) if rng.random() < 0.5 else call(g.flipx)
+        mon.obs["huge_rasters"] += 1
+    mon.case = None
+
+
 def run(mon: Monitor, tier: str, seed: int, shard: int, nshards: int) -> None:
     install(mon)
     _seen_consistency.clear()
@@ -680,6 +709,7 @@ def run(mon: Monitor, tier: str, seed: int, shard: int, nshards: int) -> None:
         rng = random.Random(seed * 1000 + shard + 2)
         q = tier == "quick"
         drive(mon, rng, 2500 if q else 40000, 250 if q else 3000)
+        drive_huge(mon, random.Random(seed * 1000 + shard + 202), 12 if q else 200)
         ops = ["__getitem__", "pad", "pad_wh", "crop", "translate_pix", "flipx", "flipy", "rotate", "zoom_out", "zoom_to", "buffered", "left", "right", "top", "bottom", "center_pixel", "__mul__", "__rmul__"]
         for o in ops:
             mon.floor(f"GeoBox.{o}", 100 if o not in ("center_pixel",) else 50)
